@@ -61,7 +61,7 @@ const c13Data = `{"@graph":[{"@id":"http://example.org/d#a","@type":"http://exam
 
 func C13(e *core.Env) {
 	res := e.Res
-	res.Rule = "cases = (string, position) with position in {profile name, validation name, message}; strings: every token of a 58-item alphabet (quotes, control characters other than newline and tab, DEL, no-break space, zero-width joiner, line separator, an emoji flag spelt with astral TAG characters, a plane-16 private-use character, backslash, percent, braces, backtick, dollar, newline, tab, non-ASCII BMP and astral, sprintf verbs, well-formed / malformed / repeated / absent placeholders, key names, YAML indicators, an injection attempt) alone and embedded, plus seeded concatenations of 2-6 tokens (260 quick / 4000 thorough); " +
+	res.Rule = "cases = (string, position) with position in {profile name, validation name, message, value of an in / containsAll / containsSome list}; strings: every token of a 58-item alphabet (quotes, control characters other than newline and tab, DEL, no-break space, zero-width joiner, line separator, an emoji flag spelt with astral TAG characters, a plane-16 private-use character, backslash, percent, braces, backtick, dollar, newline, tab, non-ASCII BMP and astral, sprintf verbs, well-formed / malformed / repeated / absent placeholders, key names, YAML indicators, an injection attempt) alone and embedded, plus seeded concatenations of 2-6 tokens (260 quick / 4000 thorough); " +
 		"each must compile, and profileName / sourceShapeName / resultMessage in the report must equal the text the Coq model says must be shown (message: placeholders replaced by the node's values, null when absent, double quotes as single quotes); non-trivial = the string contains a character outside [A-Za-z0-9 ]; distinct by (string, position)"
 	strs := c13Strings(e)
 	nontrivial := func(s string) bool {
@@ -176,8 +176,82 @@ func C13(e *core.Env) {
 		}
 		check("validation names / messages", fmt.Sprintf("batch %d..%d", start, end), p, names, msgs, "Batch")
 	}
+	// values of in / containsAll / containsSome lists: the text is data. For each string s a node holding exactly s must
+	// pass `in: [s]`, `containsAll: [s]`, `containsSome: [s]` and a node holding s~ must fail all three.
+	kinds := []string{"in", "containsAll", "containsSome"}
+	for start := 0; start < len(strs); start += batch {
+		end := start + batch
+		if end > len(strs) {
+			end = len(strs)
+		}
+		run := func(lo, hi int) (bool, map[string]any) {
+			var lv, vs strings.Builder
+			good := map[string]any{"@id": "http://example.org/d#good", "@type": "http://example.org/ns#T"}
+			bad := map[string]any{"@id": "http://example.org/d#bad", "@type": "http://example.org/ns#T"}
+			for i := lo; i < hi; i++ {
+				for ki, k := range kinds {
+					name := fmt.Sprintf("l%d-%s", i, k)
+					lv.WriteString("  - " + name + "\n")
+					prop := fmt.Sprintf("q%dk%d", i, ki)
+					vs.WriteString("  " + name + ":\n    targetClass: ex.T\n    message: m\n    propertyConstraints:\n      ex." + prop + ":\n        " + k + ": [ " + yq(strs[i]) + " ]\n")
+					good["http://example.org/ns#"+prop] = strs[i]
+					bad["http://example.org/ns#"+prop] = strs[i] + "~"
+				}
+			}
+			p := header("Lists") + "violation:\n" + lv.String() + "validations:\n" + vs.String()
+			dj, _ := json.Marshal(map[string]any{"@graph": []any{good, bad}})
+			replay := map[string]any{"position": "list value", "profile": p, "data": string(dj), "strings": strs[lo:hi]}
+			out, err := pkg.Validate(p, string(dj), false, nil)
+			if err != nil {
+				replay["error"] = core.Trunc(err.Error(), 1200)
+				return false, replay
+			}
+			rep, err := ParseReport(out)
+			if err != nil {
+				replay["error"] = "report does not parse"
+				return false, replay
+			}
+			got := map[string]bool{}
+			for _, r := range rep.Results {
+				got[r.Name+"|"+r.Focus] = true
+			}
+			wrong := []string{}
+			for i := lo; i < hi; i++ {
+				for _, k := range kinds {
+					name := fmt.Sprintf("l%d-%s", i, k)
+					if got[name+"|http://example.org/d#good"] {
+						wrong = append(wrong, fmt.Sprintf("%s: the node holding exactly %q is reported", k, strs[i]))
+					}
+					if !got[name+"|http://example.org/d#bad"] {
+						wrong = append(wrong, fmt.Sprintf("%s: the node holding %q is not reported", k, strs[i]+"~"))
+					}
+				}
+			}
+			if len(wrong) > 0 {
+				replay["wrong"] = wrong
+				return false, replay
+			}
+			return true, nil
+		}
+		if ok, _ := run(start, end); !ok {
+			// one by one, to name the string
+			for i := start; i < end; i++ {
+				if ok1, rp := run(i, i+1); !ok1 {
+					what := "a list value is not treated as the text it is"
+					if e, has := rp["error"]; has {
+						what = "a profile with this list value does not validate: " + core.Trunc(fmt.Sprint(e), 160)
+					}
+					res.Violate("impl-violates-property", what+": "+core.Trunc(fmt.Sprintf("%q", strs[i]), 80), rp)
+				}
+			}
+		}
+		for i := start; i < end; i++ {
+			res.Case("listvalue|"+strs[i], nontrivial(strs[i]))
+			res.Count("position=list-value")
+		}
+	}
 	if len(strs) > 60 {
-		res.Sample(map[string]any{"strings": []string{strs[0], strs[21], strs[57], strs[len(strs)-1]}, "positions": "profile name, validation name, message"})
+		res.Sample(map[string]any{"strings": []string{strs[0], strs[21], strs[57], strs[len(strs)-1]}, "positions": "profile name, validation name, message, list value"})
 	}
 	// the model's own pipeline agrees with its specification on every string used (theorem C13_message, evaluated)
 	for _, s := range strs {
